@@ -30,8 +30,20 @@ type hostCase struct {
 var hostNames = map[string]string{"n1": "example.org", "n2": "a.example.org", "n3": "ads.test.com", "n4": "x-y.example.net"}
 var hostAddrs = map[string][]string{"v4": {"0.0.0.0", "127.0.0.1", "192.168.1.1"}, "v6": {"::1", "2001:db8::1", "::"}, "mapped": {"::ffff:1.2.3.4"}}
 var hostSeps = map[string][]string{"sp": {" "}, "tab": {"\t"}, "mixed": {" \t  ", "\t\t "}}
-var hostComments = map[string][]string{"none": {""}, "blank_hash_text": {" #note", "\t# note", " \t# note", "\t\t#note", "  \t #n"}, "hash_text": {"#note", "#n"},
-	"blank_hashhash_text": {" ## phishing"}, "blank_hash_words": {" # a b 1.2.3.4 evil.org"}, "hash_only": {"#"}, "blank_hash_only": {" #", "  #", " \t#", "\t\t#"}}
+
+// the text of a comment is arbitrary: plain words, addresses and names, and the characters that mean something in
+// adblock-style rules (| ^ * $ / and a URL)
+var hostComments = map[string][]string{"none": {""}, "blank_hash_text": {" #note", "\t# note", " \t# note", "\t\t#note", "  \t #n", " #/ads^|*$x"},
+	"hash_text":           {"#note", "#n", "#http://x.example/|^*$a"},
+	"blank_hashhash_text": {" ## phishing"}, "blank_hash_words": {" # a b 1.2.3.4 evil.org", " # See http://example.com/x?a=b|c^d*e$f , 50% off"}, "hash_only": {"#"}, "blank_hash_only": {" #", "  #", " \t#", "\t\t#"}}
+
+var longHostsLine = func() string {
+	var names []string
+	for i := 0; i < 400; i++ {
+		names = append(names, fmt.Sprintf("alias%03d.long.example", i))
+	}
+	return "10.9.8.7 " + strings.Join(names, " ")
+}()
 
 func addrClass(ip string) string {
 	switch {
@@ -132,12 +144,27 @@ func cmdReplayHosts(args []string) error {
 						}
 					}
 					// through the DNS engine, among distractor lines
+					// (every 16th list also carries a hosts line of 400 names, longer than the 4 KiB read buffer, in front)
+					withLong := lines%16 == 1
 					list := "0.0.0.0 other.example\n" + line + "\n::2 other6.example\n||blocked.example^\n"
+					if withLong {
+						list = "0.0.0.0 other.example\n" + longHostsLine + "\n" + line + "\n::2 other6.example\n||blocked.example^\n"
+					}
 					st, err := filterlist.NewRuleStorage([]filterlist.RuleList{&filterlist.StringRuleList{ID: 5, RulesText: list}})
 					if err != nil {
 						return err
 					}
 					eng := urlfilter.NewDNSEngine(st)
+					if withLong {
+						for _, ln := range []string{"alias000.long.example", "alias205.long.example", "alias399.long.example"} {
+							evals++
+							var res *urlfilter.DNSResult
+							pv := safeCall(func() { res, _ = eng.Match(ln) })
+							if pv != "" || len(res.HostRulesV4) != 1 || len(res.HostRulesV4[0].Hostnames) != 400 {
+								bad(c, longHostsLine[:60]+"...", "DNSEngine.Match", "query "+ln+" on a 400-name line", "v4, 400 names", fmt.Sprintf("%d rules %s", len(res.HostRulesV4), pv))
+							}
+						}
+					}
 					var keys []string
 					for k := range c.Match {
 						keys = append(keys, k)
